@@ -379,3 +379,21 @@ prop("C01",
               "the shipped suffix list as provider (C10)", "names longer than the stated bounds or outside the alphabet", "Client::register/authenticate passing the result on (whole ceremonies)",
               "Android origins (UnverifiedAssetLink needs nom-parsed fingerprints; planned)"],
      )
+
+for _p in ("C12", "C15"):
+    PROPS[_p]["engines"] = [_e2.engine]
+    PROPS[_p]["e2"] = ["from_slice"]
+    PROPS[_p]["trusted"] = E2_TRUST
+    PROPS[_p]["functions"] = PROPS[_p]["functions"] + ["E2: AuthenticatorData::from_slice (MIR): length guard vs fixed-size reads, as 64-bit bit-vector queries"]
+    PROPS[_p]["technique"] = "Kani/CBMC bounded model checking + symbolic path execution of rustc MIR with z3 bit-vector queries (from_slice length guard)"
+PROPS["C15"]["functions"] += ["passkey_transports::hid::{PacketHeader::try_from, InitHeader::try_from, ContHeader::from, Message::{init,extend}, ChannelHandler::handle_packet}"]
+PROPS["C15"]["stubs"] = ["std::collections::HashMap<u32, Message> -> 4-slot association list model (cfg(kani) only)"]
+PROPS["C15"]["outside"] = ["CBOR and JSON decoders (ciborium / serde_json)", "inputs longer than the stated bounds", "Bytes / ignore_unknown_opt_vec visitors, COSE key converter, fingerprint parser (planned)",
+                           "CTAPHID sequences of more than three packets"]
+
+PROPS["C17"]["engines"] = [_e2.engine]
+PROPS["C17"]["e2"] = ["u2f"]
+PROPS["C17"]["trusted"] = E2_TRUST
+PROPS["C17"]["functions"] += ["E2: <Authenticator as U2fApi>::{register, authenticate}::{closure#0} (MIR)"]
+PROPS["C17"]["technique"] = "Kani/CBMC bounded model checking (encodings, frame parser) + symbolic path execution of rustc MIR with z3 (U2F register/authenticate control and data flow)"
+PROPS["C17"]["outside"] = ["every signature clause (P-256)", "key handles longer than 8 bytes in the parser harness", "the bytes of the signature targets"]
